@@ -79,3 +79,25 @@ CHECKS["C19"] = dict(
         dict(name="concurrent", test="TestCounterConcurrent", kind="rapid", checks={"quick": 60, "thorough": 3000}, shards=4, timeout={"quick": 600, "thorough": 3000}),
     ],
 )
+
+CHECKS["C15"] = dict(
+    pkg="c15", level="exploration",
+    rule=("part set: rapid-generated histories (1..40 steps over 6 addresses x {main,backup}) of Add (fresh objects, also of a member "
+          "address with the other type), Remove (stored object, or a fresh object with the same or the other type as the controller "
+          "passes), ReplaceAll, MarkHostHealthy/Unhealthy on the current member object or on a retired object of that address (what a "
+          "health round holding an old All() snapshot does), compared after every step with a model (addr -> current object): Healthy() == "
+          "healthy members of the preferred tier, sorted, duplicate-free, current objects by pointer identity; All/Len/Exist == model; "
+          "Random() in the usable set or nil iff empty. part hysteresis: a real hc.Monitor with a scripted checker driven round by round "
+          "(thresholds 0..5, generated result matrix, remove+re-add of a host between rounds): a flip needs >= threshold (>=1) consecutive "
+          "contrary results and must happen by threshold+1. part concurrent: 2..8 goroutines mutate disjoint address ranges while readers "
+          "assert sorted / single-tier / ever-member snapshots; the quiescent view is consistent. Non-trivial: history has a type change "
+          "of an address, a mark on a retired object or a removal with the other type (set); a contrary run was interrupted (hysteresis); "
+          "all concurrent cases. Distinct by canonical JSON."),
+    assumptions=["added hosts are always fresh objects (every production caller creates them with host.NewWithType)",
+                 "'>' vs '>=' in the threshold comparison both satisfy 'at least threshold'"],
+    parts=[
+        dict(name="set", test="TestSetModel", kind="rapid", checks={"quick": 6000, "thorough": 300000}, shards=16, timeout={"quick": 600, "thorough": 3000}),
+        dict(name="hysteresis", test="TestHysteresis", kind="rapid", checks={"quick": 3000, "thorough": 150000}, shards=8, timeout={"quick": 600, "thorough": 3000}),
+        dict(name="concurrent", test="TestSetConcurrent", kind="rapid", checks={"quick": 40, "thorough": 2000}, shards=4, timeout={"quick": 600, "thorough": 3000}),
+    ],
+)
